@@ -5,6 +5,7 @@ predicate, and in the accepting rows every field term equals the reference layou
 from rules.v2common import *
 
 LEVEL = 'proof'
+FIXTURES = ['F3', 'F1']
 
 
 def run(ctx, R):
